@@ -42,7 +42,7 @@ def main():
         txt = open(demo).read()
         for name, tree in (("with_change", mut), ("without_change", clean)):
             # demos were written against the agent's worktree path: run a copy whose hard-coded paths point at the scratch tree
-            m = re.search(r"/tmp/wt2?/C\d+", txt)
+            m = re.search(r"/tmp/wt\d?/C\d+", txt)
             t2 = txt.replace(m.group(0), tree) if m else txt
             dpath = os.path.join(tree, "_seed_demo.py")
             open(dpath, "w").write(t2)
